@@ -144,9 +144,28 @@ def case_fn(case):
     def viol(clause, wit, detail):
         out.append(V(PROP, clause, site=mk, witness=wit, detail=detail,
                      case=case, kind="grid"))
-    for aname, x in arrays(cp, R).items():
+    P = md.get_parameter_defaults()
+    for k_, v_ in dict(p, contact_point=cp, baseline=b).items():
+        if not P[k_].expr:
+            P[k_].set(value=v_, min=-np.inf, max=np.inf)
+    arrs = arrays(cp, R)
+    # same length and end points as "fine-descending", other interior
+    fd = arrs["fine-descending"]
+    u = np.linspace(0, 1, fd.size) ** 2.2
+    arrs = dict(arrs)
+    arrs["fine-descending-nonuniform"] = fd[0] + u * (fd[-1] - fd[0])
+    order = ["fine-descending", "fine-descending-nonuniform"] + \
+        [k_ for k_ in arrs if not k_.startswith("fine-descending")]
+    for aname in order:
+        x = arrs[aname]
         x0 = x.copy()
         F = fn(x, contact_point=cp, baseline=b, **p)
+        if x.size:
+            Fw = md.model(P, x)
+            if not np.array_equal(Fw, F):
+                viol("formula", aname + ":wrapper", "the registered model "
+                     "wrapper does not return the model function's values "
+                     f"(max |d| = {np.max(np.abs(Fw - F)):.3e})")
         if not np.array_equal(x, x0):
             viol("input-mutated", aname, "indentation array modified")
         if np.shape(F) != x.shape:
